@@ -4,7 +4,7 @@
 From Coq Require Import String.
 From Coq Require Import List ZArith NArith Bool Arith Lia.
 Import ListNotations.
-Require Import PyLib PyLib2 Str Rx RxFacts RxSub RefJun RefJunDec.
+Require Import PyLib PyLib2 Str Rx RxFacts RxSub RefJun RefStr.
 Notation vstr := RefJun.vstr.
 
 Section M.
